@@ -18,6 +18,11 @@ Statements are abstracted to what decides the control flow of the two loops:
                behind unless an enclosing transaction is rolled back: a text holding several
                commands (`INSERT δ; <failing insert>`, go-sqlite3 executes them in turn) or a
                multi-row `INSERT OR FAIL` whose later row violates a constraint
+  startFail prep ro  a statement run through the QUERY helper (ForceQuery / RETURNING, or a read-only
+               statement on the unified path) whose `QueryContext` fails to START: the statement does
+               not prepare (`prep = false`: missing table or column) or has too few parameters
+               (`prep = true`; `ro` = SQLite classifies it read-only). queryStmtWithConn returns the
+               rows carrying the error AND the error, so the loops treat it as any other failure.
   begin / commit / rollback   explicit transaction control
 
 The SQLite side (`sqlRun`) is the assumed semantics of one connection in WAL
@@ -45,6 +50,7 @@ inductive Stmt where
   | query (force : Bool)
   | queryFail
   | partialFail (d : Nat)
+  | startFail (prep ro : Bool)
   | begin
   | commit
   | rollback
@@ -74,6 +80,7 @@ def sqlRun (db : Db) : Stmt → Option Db
   | .query _ => some db
   | .queryFail => none
   | .partialFail _ => none
+  | .startFail _ _ => none
   | .begin =>
     match db.open_ with
     | some _ => none
@@ -95,6 +102,7 @@ def failEffect (db : Db) : Stmt → Db
 /-- `sqlite3_prepare` succeeds -/
 def prepares : Stmt → Bool
   | .prepFail => false
+  | .startFail prep _ => prep
   | _ => true
 
 /-- `sqlite3_stmt_readonly` of a statement that prepares. Transaction control
@@ -102,6 +110,7 @@ statements are read-only as far as SQLite is concerned. -/
 def readOnly : Stmt → Bool
   | .query _ => true
   | .queryFail => true
+  | .startFail _ ro => ro
   | .begin => true
   | .commit => true
   | .rollback => true
@@ -110,6 +119,7 @@ def readOnly : Stmt → Bool
 def forced : Stmt → Bool
   | .returning _ f => f
   | .query f => f
+  | .startFail _ _ => true
   | _ => false
 
 inductive Res where
@@ -240,7 +250,8 @@ def request (db : Db) (r : Req) : Out :=
 `req <exec|request> <tx 0|1> <rb 0|1> <stmt,stmt,…|->` →
    `<res;res;…|-> <committed> <open|-> <err 0|1>`
 statement tokens: `w<δ>` ok, `r<δ>` returning, `R<δ>` returning+ForceQuery, `xf` execFail,
-`pf` prepFail, `e` empty, `q` query, `Q` query+ForceQuery, `qf` queryFail, `p<δ>` partialFail, `b`, `c`, `rb`.
+`pf` prepFail, `e` empty, `q` query, `Q` query+ForceQuery, `qf` queryFail, `p<δ>` partialFail,
+`sp` startFail (does not prepare), `sa` startFail (write, too few parameters), `sq` startFail (read-only, too few parameters), `b`, `c`, `rb`.
 result tokens: `E<rowid>`, `E*`, `Q<ids .-separated>`, `err`. Lists of ids are `.`-separated, `-` when empty. -/
 
 structure DState where
@@ -254,6 +265,9 @@ def parseStmt (t : String) : Option Stmt :=
   | ['q'] => some (.query false)
   | ['Q'] => some (.query true)
   | ['q', 'f'] => some .queryFail
+  | ['s', 'p'] => some (.startFail false false)
+  | ['s', 'a'] => some (.startFail true false)
+  | ['s', 'q'] => some (.startFail true true)
   | ['b'] => some .begin
   | ['c'] => some .commit
   | ['r', 'b'] => some .rollback
